@@ -62,3 +62,77 @@ claim("C08", "DESIGN.md §2 C08",
       "branch/position equals the root read from the stored header bytes and 0 < height < stored headers.",
       "Reference Merkle code self-tested on Bitcoin blocks 170 and 100000; side-neutral mutations are a stated don't-care; headers are "
       "written into the store directly (their validation is C07).")
+claim("C10", "DESIGN.md §2 C10",
+      "property-based testing with harness-owned transports and a virtual clock: generated fragmentations / request scripts / a 39-entry misbehaviour catalogue against the real client and server protocols",
+      "Real BlobServerProtocol and BlobExchangeClientProtocol are wired through in-memory transports whose byte queues the harness "
+      "delivers in generated fragments (1-byte, header split at every offset around its closing brace, glued, whole) on a virtual-time "
+      "loop. Three generated sub-domains: honest<->honest sequences of requests (incl. blob contents that look like protocol JSON); real "
+      "server vs scripted client (valid / pending / unknown / malformed / oversized / wrongly-typed requests) with a reference reading "
+      "of everything the server wrote; real client vs scripted server applying one of 39 misbehaviours at request position 0..2, then an "
+      "honest transfer on a fresh connection. Timeouts are judged on the virtual clock. Sampled: exploration level.",
+      "TCP is modelled by in-memory transports (connection_lost for RST/FIN, asyncio's fatal-error rule for exceptions in "
+      "data_received); replies that still deliver exactly the right bytes are a don't-care for verification.")
+claim("C11", "DESIGN.md §2 C11",
+      "model-based property testing: Hypothesis op histories over the real TreeRoutingTable/KademliaProtocol add path with generated probe outcomes, invariants after every step, exact closest-K oracle",
+      "Histories of add / fill / re-add / same-id-new-address / new-id-used-address / remove / tick / mark replied|failed / query over ids "
+      "generated as distances (every shared-prefix length, sums of powers of two +-1, live bucket boundaries and midpoints +-1) drive "
+      "the real routing table through KademliaProtocol._add_peer with a fake transport answering each ping as generated (pong / "
+      "silence / error). After every step: buckets cover [0,2^384) exactly once, contacts in the right bucket, <=K per bucket, unique "
+      "ids and addresses, get_peer agrees with the model; find_close_peers equals the sorted model exactly; displacement only after a "
+      "failed probe; admission of contacts closer than the K-th closest.",
+      "Histories are sampled (<=100 ops); whether a contact whose probe failed is actually dropped is a don't-care.")
+claim("C17", "DESIGN.md §2 C17",
+      "property-based testing / structured fuzzing: protocol messages vs an independent bencode implementation; generated garbage (all truncations, 1-3 edits, nesting bombs, schema deviations) fed to the real datagram handler with state comparison",
+      "Messages built through the datagram classes are decoded by lbry and by an independent strict bencode decoder (structure and "
+      "re-encoded bytes must agree), compact addresses round-trip over all IPv4/ports; ~260k generated datagrams per quick run (every "
+      "truncation of valid datagrams, 1-3 byte edits, repetition bombs to 65000, huge/negative lengths, non-canonical bencode, envelopes "
+      "with schema deviations, semantically invalid requests) are fed to KademliaProtocol.datagram_received of a populated node: no "
+      "exception may escape, a deterministic step budget detects decoder hangs, and for inputs the reference judges malformed the "
+      "routing table, data store and add/remove queues must be unchanged and the sender's failure recorded.",
+      "Well-formedness is judged by the reference decoder + a schema written from datagram.py's documented layout; inputs only a lenient "
+      "reading accepts are a don't-care; exceptions inside tasks spawned for well-formed requests are only labelled.")
+claim("C06", "DESIGN.md §2 C06",
+      "differential property testing against an independent pure-Python BIP32 / secp256k1 / Base58Check implementation (self-tested on the BIP32 vectors), plus corruption and round-trip checks",
+      "Seeds (16..64 bytes) and reference-built roots (leading-zero keys and chain codes, N-1, depth up to 249) are derived along paths of "
+      "depth 0..6 with indices from {0,1,2^31-1,2^31,2^31+1,2^32-1,random} on three ledger classes; at every node private/public key, "
+      "chain code, fingerprints, depth, child number, xprv/xpub strings and address must equal the reference, public-only derivation "
+      "must match, strings re-parse and re-encode identically, 1-character corruptions and 14 classes of structurally invalid keys must "
+      "be rejected; Base58(Check) payload round trips; mnemonic integer round trip and PBKDF2 seed; two fresh ledgers generate identical "
+      "address lists equal to reference m/0/n, m/1/n under generated gap histories.",
+      "The reference (vlib/ref/secp256k1.py, bip32.py, base58.py) is trusted after its self-test on published vectors and a cross-check "
+      "against coincurve / python-ecdsa.")
+claim("C04", "DESIGN.md §2 C04",
+      "differential + metamorphic property testing: wallet-signed transactions and channel-signed claims verified by an independent SIGHASH_ALL / secp256k1 implementation; every single-bit / field mutation must stop validating",
+      "Transactions with 1..8 (thorough 60) inputs spending generated P2PKH / claim / update / support outputs owned by 1-3 accounts are "
+      "signed through Transaction.sign; the reference re-parses tx.raw, rebuilds the legacy SIGHASH_ALL preimage and verifies each strict-"
+      "DER signature and pubkey hash with its own curve arithmetic. Channel-signed streams/reposts/collections/supports: the reference "
+      "recomputes sha256(first outpoint || channel hash || message) from raw bytes and verifies the compact signature; is_signed_by must be "
+      "True in memory and after a raw round trip and never True after any generated mutation (bit flips incl. full payload sweeps, other "
+      "channel, other first input). Three real main-net legacy examples and reference-signed legacy-style claims must validate.",
+      "Reference crypto self-tested on RFC 6979 and block-170 vectors; mutations decoding to the identical protobuf message are a don't-care.")
+claim("C05", "DESIGN.md §2 C05",
+      "differential property testing against an independent Bitcoin transaction encoder/decoder (legacy + BIP144), round trip and txid, plus real main-net raws",
+      "Transactions built through the library API (all Input/Output factories, every output template, coinbase inputs) with boundary-biased "
+      "32-bit version/sequence/locktime, 64-bit amounts, 1..300 inputs/outputs steered to 252/253/254, script lengths steered to "
+      "252/253/65535/65536: raw bytes must equal the reference encoding, parse back field by field, re-serialise identically, and the id must "
+      "equal the reference txid; reference-built segwit serialisations with generated witnesses must parse to the generated fields with "
+      "raw_sans_segwit / id equal to the legacy form; 13 real raws are replayed.",
+      "Reference vlib/ref/btctx.py self-tested on Bitcoin genesis, upstream-asserted LBRY ids and the BIP143 example.")
+claim("C15", "DESIGN.md §2 C15",
+      "differential property testing against an independent script tokenizer / minimal-push encoder / classifier; generated near-template and arbitrary byte scripts",
+      "Every output and input template except multisig is generated with data lengths across 0..70000 incl. 75/76/255/256/65535/65536 and "
+      "lock heights of every byte width; source must equal the reference's minimal-push bytes and parse back to the same template and values. "
+      "Near-template scripts (12 token-level mutations) and byte soup are judged by the reference classifier: a claim/update/support is never "
+      "reported (or stored by txo_to_row) as spendable payment and vice versa (hard direction, always asserted); unknown scripts must raise.",
+      "Truncated final pushes and claim prefixes with non-standard tails are a don't-care in the soft direction; 20 real main-net scripts replayed.")
+claim("C07", "DESIGN.md §2 C07",
+      "model-based property testing with really mined chains against an independent header/PoW/retarget reference; exhaustive enumeration of single damages before reopen and of retarget arithmetic inputs",
+      "An independent reference (112-byte layout, LBRY PoW hash, Bitcoin compact bits, lbrycrd per-block retarget in exact integers; self-tested "
+      "on lbrycrd vectors and 20 real main-net headers) judges every batch. Generated histories over Headers subclasses with easy generated "
+      "targets and really mined headers: extensions split into 1..3 calls, forks, replays, batches with one field altered with/without "
+      "re-mining (exactly one rule broken), retarget clamps and negative spans, checkpointed chunk fetches with 8 bad-chunk variants, restarts "
+      "after the file is cut at a byte offset or k bytes of a header above the checkpoint are overwritten. Enumerated: retarget arithmetic for "
+      "spans -40..800 s x bits shapes, every byte flip of the real headers, every header above the checkpoint x 11 field offsets and every "
+      "cut offset in the last headers before reopen.",
+      "Proof-of-work inputs are limited to easy targets (mining must be feasible); hashes in the band between the compact-expanded and the "
+      "next mantissa step are a don't-care; forks below the checkpointed chunk are not generated.")
